@@ -76,7 +76,7 @@ fn main() {
         eprintln!("unknown property {}", args[1]);
         std::process::exit(2);
     };
-    if ISOLATED.contains(&prop.id) && std::env::var("LMCHECK_CHILD").is_err() {
+    if std::env::var("LMCHECK_CHILD").is_err() {
         std::process::exit(run_in_child(prop.id, &args[2], &cfg));
     }
     // wall-clock / memory ceiling: inconclusive (exit 2), never a violation
@@ -87,18 +87,13 @@ fn main() {
 // --- process isolation ---------------------------------------------------------
 //
 // Some failures cannot be caught inside the process: a stack overflow (unbounded recursion on a long
-// input) or any other fatal signal kills it. For the properties listed here - C15: "never panic or hang",
-// of which "never kill the process" is the strongest form - the whole run happens in a child process; if
-// the child dies, the parent replays the cases the shards were working on (one trace file per shard), each
-// in its own child, and reports the one that dies again as the violation.
-
-const ISOLATED: &[&str] = &["C15"];
+// input), a segmentation fault behind a safe API, any fatal signal. Every property therefore runs in a child
+// process. If the child dies, the run is repeated with per-shard trace files switched on (same seeds: the
+// same cases), the cases the shards were working on are replayed, each in its own child, and the one that
+// dies again is reported as the violation (no tracing cost on a run that does not die).
 
 fn isolated_replay(file: &std::path::Path) -> bool {
-    std::fs::read_to_string(file)
-        .ok()
-        .and_then(|s| serde_json::from_str::<ReplayFile>(&s).ok())
-        .map_or(false, |rf| ISOLATED.contains(&rf.property.as_str()))
+    std::fs::read_to_string(file).ok().and_then(|s| serde_json::from_str::<ReplayFile>(&s).ok()).is_some()
 }
 
 fn died(status: &std::process::ExitStatus) -> bool {
@@ -138,13 +133,19 @@ fn run_in_child(id: &str, tier: &str, cfg: &RunCfg) -> i32 {
     use std::process::{Command, Stdio};
     let t0 = std::time::Instant::now();
     let exe = std::env::current_exe().expect("own path");
+    let status = Command::new(&exe).arg(id).arg(tier).env("LMCHECK_CHILD", "1").stdin(Stdio::null()).status().expect("cannot start the child process");
+    if !died(&status) {
+        return status.code().unwrap_or(2);
+    }
+    eprintln!("the checking process was killed ({:?}); running it again with case tracing to find the case", status);
     let trace = cfg.verif_dir.join("replays").join(format!(".trace-{}-{}", id, std::process::id()));
     let _ = std::fs::remove_dir_all(&trace);
     std::fs::create_dir_all(&trace).expect("cannot create the trace directory");
-    let status = Command::new(&exe).arg(id).arg(tier).env("LMCHECK_CHILD", "1").env("LMCHECK_TRACE", &trace).stdin(Stdio::null()).status().expect("cannot start the child process");
+    let status = Command::new(&exe).arg(id).arg(tier).env("LMCHECK_CHILD", "1").env("LMCHECK_TRACE", &trace).stdin(Stdio::null()).stdout(Stdio::null()).status().expect("cannot start the child process");
     if !died(&status) {
         let _ = std::fs::remove_dir_all(&trace);
-        return status.code().unwrap_or(2);
+        eprintln!("INCONCLUSIVE: the checking process was killed once and survived the traced re-run (not a violation)");
+        return 2;
     }
     // the child died: which case was it?
     let mut files: Vec<PathBuf> = std::fs::read_dir(&trace).map(|d| d.filter_map(|e| e.ok().map(|e| e.path())).collect()).unwrap_or_default();
